@@ -5,9 +5,13 @@
 package lib
 
 //@ import anypb "google.golang.org/protobuf/types/known/anypb"
+//@ import transports "github.com/refraction-networking/conjure/pkg/transports"
 //@ import net "net"
 //@ import sync "sync"
 //@ import io "io"
+//@ import pb "github.com/refraction-networking/conjure/proto"
+//@ import redis "github.com/go-redis/redis/v8"
+//@ import proto "google.golang.org/protobuf/proto"
 //@ import log "github.com/refraction-networking/conjure/pkg/station/log"
 
 // Interface contracts of lib.Transport as its callers use them (frames only).
@@ -17,6 +21,8 @@ package lib
 //@ func (t Transport) GetDstPort(libVersion uint, seed []byte, parameters any) (uint16, error)
 //@   assigns nothing
 //@ func (t Transport) ParamStrings(p any) []string
+//@   assigns nothing
+//@ func (t Transport) GetIdentifier(d transports.Registration) string
 //@   assigns nothing
 
 // ---------------- C06: covert address policy ----------------
@@ -174,3 +180,130 @@ package lib
 //@   ensures err == nil ==> result == nil
 //@   ensures @C17: result == nil || addrFree(result)
 //@   assigns nothing
+
+// ---------------- C09 / C08 / C10: the registration registry ----------------
+// G1: the registry maps are only touched while r.m is held (read or write hold): an obligation at every access.
+//@ guardedby @C09: RegisteredDecoys.m: decoys, decoysTimeouts
+
+// helpers run inside a critical section of their caller
+//@ func (r *RegisteredDecoys) registrationExists(d *DecoyRegistration) *DecoyRegistration
+//@   requires r != nil && d != nil && (held(&r.m) || rheld(&r.m) > 0)
+//@   ensures @C09: held(&r.m) == old(held(&r.m)) && rheld(&r.m) == old(rheld(&r.m))
+//@   assigns nothing
+
+//@ func (r *RegisteredDecoys) track(d *DecoyRegistration) error
+//@   requires r != nil && d != nil && held(&r.m)
+//@   ensures @C09: held(&r.m)
+//@   assigns memory, now()
+
+//@ func (r *RegisteredDecoys) totalRegistrations() int
+//@   requires r != nil && (held(&r.m) || rheld(&r.m) > 0)
+//@   ensures @C09: held(&r.m) == old(held(&r.m)) && rheld(&r.m) == old(rheld(&r.m))
+//@ loop 1:
+//@   invariant held(&r.m) == old(held(&r.m)) && rheld(&r.m) == old(rheld(&r.m))
+
+// G2/G3: every exported operation acquires the lock, releases it on every path, never re-acquires it.
+//@ func (r *RegisteredDecoys) Track(d *DecoyRegistration) error
+//@   requires r != nil && d != nil && !held(&r.m) && rheld(&r.m) == 0
+//@   ensures @C09: !held(&r.m) && rheld(&r.m) == 0
+
+//@ func (r *RegisteredDecoys) TrackIfNotExists(d *DecoyRegistration) (bool, error)
+//@   requires r != nil && d != nil && !held(&r.m) && rheld(&r.m) == 0
+//@   ensures @C09: !held(&r.m) && rheld(&r.m) == 0
+
+// "announced to the detector as new exactly once per lifetime": the announcement happens inside the critical section
+// in which the tracked registration's Valid flag flips from false to true, and only there.
+//@ func (r *RegisteredDecoys) register(darkDecoyAddr string, d *DecoyRegistration) error
+//@   requires r != nil && d != nil && !held(&r.m) && rheld(&r.m) == 0
+//@   atcall dynamic#1 before: assert @C09: held(&r.m) && reg.Valid
+// (the detector callbacks are func-valued fields; their frame is assumed: program memory, no lock operation)
+//@   dynamiccalls assigns memory
+//@   ensures @C09: !held(&r.m) && rheld(&r.m) == 0
+
+//@ func (r *RegisteredDecoys) markActive(d *DecoyRegistration)
+//@   requires r != nil && d != nil && !held(&r.m) && rheld(&r.m) == 0
+//@   atcall dynamic#1 before: assert @C09 @C08: held(&r.m) && regTimeout.status == regStatusUsed
+//@   dynamiccalls assigns memory
+//@   ensures @C09: !held(&r.m) && rheld(&r.m) == 0
+
+// "a connection handler can see a registration only after it was validated": the lookup returns exactly validated
+// entries tracked under the string form of that phantom (C02 relies on this).
+//@ func (r *RegisteredDecoys) getRegistrations(darkDecoyAddr net.IP) map[string]*DecoyRegistration
+//@   requires r != nil && !held(&r.m) && rheld(&r.m) == 0
+//@   ensures @C09 @C02: forall k string :: k in result ==> k in r.decoys[ipString(darkDecoyAddr)] && r.decoys[ipString(darkDecoyAddr)][k].Valid && result[k] == r.decoys[ipString(darkDecoyAddr)][k]
+//@   ensures @C09: !held(&r.m) && rheld(&r.m) == 0
+//@ loop 1:
+//@   invariant rheld(&r.m) == 1 && !held(&r.m) && fresh(regs) && original == r.decoys[ipString(darkDecoyAddr)]
+//@   invariant forall k string :: k in regs ==> k in original && original[k].Valid && regs[k] == original[k]
+//@   modifies mapof(regs)
+
+//@ func (r *RegisteredDecoys) RegistrationExists(d *DecoyRegistration) *DecoyRegistration
+//@   requires r != nil && d != nil && !held(&r.m) && rheld(&r.m) == 0
+//@   ensures @C09: !held(&r.m) && rheld(&r.m) == 0
+
+//@ func (r *RegisteredDecoys) TotalRegistrations() int
+//@   requires r != nil && !held(&r.m) && rheld(&r.m) == 0
+//@   ensures @C09: !held(&r.m) && rheld(&r.m) == 0
+
+// C08 "never early": every index listed as expired belongs to a record whose age exceeds the lifetime of its state
+// (10 min while unused, 6 h in any case); the ghost clock can only advance, so it stays expired.
+//@ define regExpired(t *DecoyTimeout, r *RegisteredDecoys) bool = (t.status == regStatusUnused && now() - tnanos(t.registrationTime) > r.timeoutUnused) || now() - tnanos(t.registrationTime) > r.timeoutActive
+//@ func (r *RegisteredDecoys) getExpiredRegistrations() []string
+//@   requires r != nil && !held(&r.m) && rheld(&r.m) == 0
+//@   ensures @C08: forall j int :: 0 <= j && j < len(result) ==> result[j] in r.decoysTimeouts && regExpired(r.decoysTimeouts[result[j]], r)
+//@   ensures @C09: !held(&r.m) && rheld(&r.m) == 0
+//@ loop 1:
+//@   invariant rheld(&r.m) == 1 && !held(&r.m) && fresh(expiredRegTimeoutIndices)
+//@   invariant forall j int :: 0 <= j && j < len(expiredRegTimeoutIndices) ==> expiredRegTimeoutIndices[j] in r.decoysTimeouts && regExpired(r.decoysTimeouts[expiredRegTimeoutIndices[j]], r)
+//@   modifies now()
+
+// C08 "forgotten entirely": removing an index removes its timeout record (and the registration, and an emptied set).
+//@ func (r *RegisteredDecoys) removeRegistration(index string) *regExpireLogMsg
+//@   requires r != nil && !held(&r.m) && rheld(&r.m) == 0
+//@   ensures @C08: result != nil ==> !(index in r.decoysTimeouts)
+//@   ensures @C09: !held(&r.m) && rheld(&r.m) == 0
+
+// the sweep itself: every read of the registry happens under the lock (G1 obligations)
+//@ func (r *RegisteredDecoys) removeOldRegistrations(logger *log.Logger) (int, int)
+//@   requires r != nil && logger != nil && !held(&r.m) && rheld(&r.m) == 0
+//@   ensures @C09: !held(&r.m) && rheld(&r.m) == 0
+//@ loop 1:
+//@   invariant !held(&r.m) && rheld(&r.m) == 0
+
+// C08/C10: the station's own lifetimes are the ones the property states, and each announcement requests the lifetime
+// of its state (New: 10 minutes, Update: 6 hours, in nanoseconds).
+//@ func NewRegisteredDecoys() *RegisteredDecoys
+//@   ensures @C08 @C10: result != nil && result.timeoutUnused == 600000000000 && result.timeoutActive == 21600000000000
+
+//@ define regWF(reg *DecoyRegistration) bool = reg != nil && (len(reg.PhantomIp) == 4 || len(reg.PhantomIp) == 16) && (len(reg.registrationAddr) == 4 || len(reg.registrationAddr) == 16) && (reg.PhantomProto == 1 || reg.PhantomProto == 2)
+
+// C10: the published message carries that registration's phantom, registrant address, port, protocol, the requested
+// lifetime and operation, and is acceptable to the detector (src/sessions.rs: IP-literal phantom and client, TCP/UDP).
+//@ func sendToDetector(reg *DecoyRegistration, duration uint64, op pb.StationOperations)
+//@   requires regWF(reg)
+//@   requires @C10: (op == 1 ==> duration == 600000000000) && (op == 2 ==> duration == 21600000000000)
+//@   atcall proto.Marshal#1 before: assert @C10: msg.PhantomIp != nil && *msg.PhantomIp == ipString(reg.PhantomIp) && isIPLiteral(*msg.PhantomIp) && msg.ClientIp != nil && *msg.ClientIp == ipString(reg.registrationAddr) && isIPLiteral(*msg.ClientIp)
+//@   atcall proto.Marshal#1 before: assert @C10: msg.DstPort != nil && *msg.DstPort == reg.PhantomPort && msg.Proto == &reg.PhantomProto && msg.TimeoutNs != nil && *msg.TimeoutNs == duration && msg.Operation != nil && *msg.Operation == op
+//@   ensures @C10: true
+
+//@ func NewRegisteredDecoys$1(d *DecoyRegistration)
+//@   requires regWF(d)
+//@   ensures @C10: true
+//@ func NewRegisteredDecoys$2(d *DecoyRegistration)
+//@   requires regWF(d)
+//@   ensures @C10: true
+
+// C10: the clear request must be one the detector acts on: it evaluates protocol and phantom before dispatching.
+//@ func clearDetector()
+//@   atcall proto.Marshal#1 before: assert @C10: msg.Operation != nil && *msg.Operation == 3
+//@   atcall proto.Marshal#1 before: assert @C10: msg.Proto != nil && (*msg.Proto == 1 || *msg.Proto == 2) && msg.PhantomIp != nil && isIPLiteral(*msg.PhantomIp)
+//@   ensures @C10: true
+
+// statistics bookkeeping (its own small lock, never the registry lock)
+//@ func (s *Stats) ExpireReg(generation uint32, source *pb.RegistrationSource)
+//@   assigns memory
+//@   trusted
+
+//@ func getRedisClient() *redis.Client
+//@   assigns nothing
+//@   trusted
